@@ -28,7 +28,7 @@ using namespace vc;
 extern "C" const char *__asan_default_options()
 {
   return "detect_leaks=0:exitcode=77:allocator_may_return_null=0:max_allocation_size_mb=1024:"
-         "malloc_context_size=6:handle_abort=0:detect_stack_use_after_return=0";
+         "malloc_context_size=6:handle_abort=0:detect_stack_use_after_return=0:quarantine_size_mb=8";
 }
 extern "C" const char *__ubsan_default_options() { return "print_stacktrace=1:exitcode=77"; }
 
@@ -607,6 +607,7 @@ static std::string case_id(Case const &c)
 // the phase-1 body executed in the child: returns a report on fd 3
 static int child_body(std::string const &conf, bool with_harvest)
 {
+  double tb0 = now();
   vproxy *px = make_proxy();
   g_harvest.clear();
   g_harvest_on = with_harvest;
@@ -635,6 +636,7 @@ static int child_body(std::string const &conf, bool with_harvest)
   os << "RC " << rc << " " << src << " " << wrc << " " << orc << " " << erc << " " << nerr_parse << " " << nerr
      << " " << ncv << " " << nb << " " << (unrec ? 1 : 0) << " " << st.size() << "\n";
   os << "E " << first_err << "\n";
+  os << "MS " << (long) ((now() - tb0) * 1e6) << "\n";
   for (auto const &h : g_harvest) {
     os << "H " << h.first;
     for (auto const &k : h.second) os << " " << k;
@@ -651,6 +653,7 @@ struct Rep {
   int rc = 0, src = 0, wrc = 0, orc = 0, erc = 0;
   long nerr_parse = 0, nerr = 0, ncv = 0, nb = 0, unrec = 0, stsize = 0;
   std::string first_err;
+  long body_us = 0;
   std::vector<std::pair<std::string, std::vector<std::string>>> harvest;
 };
 static Rep parse_rep(std::string const &out)
@@ -665,6 +668,7 @@ static Rep parse_rep(std::string const &out)
       ls >> r.rc >> r.src >> r.wrc >> r.orc >> r.erc >> r.nerr_parse >> r.nerr >> r.ncv >> r.nb >> r.unrec >> r.stsize;
       rcl = true;
     } else if (l.rfind("E ", 0) == 0) r.first_err = l.substr(2);
+    else if (l.rfind("MS ", 0) == 0) r.body_us = atol(l.c_str() + 3);
     else if (l.rfind("H ", 0) == 0) {
       auto t = split_ws(l.substr(2));
       if (t.size()) r.harvest.push_back(std::make_pair(t[0], std::vector<std::string>(t.begin() + 1, t.end())));
@@ -1181,6 +1185,8 @@ int main(int argc, char **argv)
           }
           bool rejected = rep.rc != 0;
           r.count(rejected ? "parse_rejected" : "parse_accepted");
+          r.count("child_body_ms", rep.body_us / 1000);
+          r.count("child_wall_ms", (long) (o.secs * 1000));
           if (!rejected && (rep.src | rep.wrc | rep.orc | rep.erc)) r.count("accepted_then_runtime_error");
           if (rep.unrec) r.count("trivial_keyword_not_read");
           else r.seen("nontrivial", case_id(c));
